@@ -34,4 +34,12 @@ PROPS = {
                 profiles=(["debug"], ["debug", "release"]), case_timeout=600,
                 rule="cases = confirmation histories: (a) every well-formed history (each tag confirmed once, singly or by a multiple covering all still-unconfirmed lower tags) of <= N tags x ack/nack x 4 starting tags, each with iterator-drop patterns; (b) random well-formed histories <= 200 tags with random drops; (c) arbitrary duplicate/stale streams; distinct = digest of (history, drops); all non-trivial",
                 assumptions=["tags never reach 2^64-1", "trusted base: the reference model in harness/src/props/c14.rs"]),
+    "C10": dict(level="exploration",
+                level_text="Held on the executions produced: the real ChannelSlots (hooked probe) is compared with a set model over every operation sequence of length <= 5/6 for channel_max 1..3, boundary runs that fill, free and refill tables of 255 / 65534 / 65535 ids, and random sequences up to 4x channel_max long, in debug AND release builds (overflow behaviour differs); end to end the same model judges Connection::open_channel / Channel::close / server-initiated closes, and the broker side checks the ids of Channel.Open frames. Each sequence runs on its own thread so an infinite loop or panic is an observation.",
+                level_note="Component part uses the verif::SlotsProbe hook (real ChannelSlots<()>); the end-to-end part needs no hook. A sequence that does not finish within 20-30 s (operations take microseconds) is reported as a hang.",
+                technique="runtime monitoring: reference set model compared after every operation + structural invariant (open ids == model) at quiescent points, bounded-exhaustive + random sequences, debug and release builds",
+                progress=True, abort=False, min_nontrivial=(100, 2000),
+                profiles=(["debug", "release"], ["debug", "release"]), case_timeout=400,
+                rule="cases = sequences over {open(None), open(Some(id)), close(id)} (ids include 0, max, max+1) for channel_max in {1,2,3,small,255,65534,65535}: exhaustive short sequences, boundary fill/free/refill runs, random sequences, and end-to-end sequences with client and server closes; distinct = digest of (max, sequence); all non-trivial",
+                assumptions=["trusted base: the set model in harness/src/props/c10.rs"]),
 }
